@@ -2,13 +2,35 @@ from propdefs.common import *
 
 PROP = {
     "bin": "c09",
-    "coq_targets": ["theories/Flow/C09Check", "theories/Flow/FixedPointProofs"],
-    "n": {"quick": 1600, "thorough": 40000},
-    "theorems": [],
-    "rule": "",
-    "trusted_base": [KERNEL, HARNESS_TB],
-    "assumptions": [],
+    "coq_targets": ["theories/Flow/C09Check", "theories/Flow/FixedPointProofs", "theories/Flow/FpILProofs", "theories/Flow/C09Example"],
+    "n": {"quick": 1600, "thorough": 40000, "sens": 240},
+    "theorems": ["fp_solution", "fp_solution_backward", "fp_forced", "fp_forced_backward", "fp_forced_postfix", "fp_forced_postfix_backward",
+                 "fp_least", "fp_least_backward", "none_only_at_entry", "fp_terminates", "fp_terminates_backward", "fp_budget_suffices",
+                 "fp_no_maxsteps", "fp_budget", "fp_maxsteps_iff", "run_never_out_of_fuel", "fp_error_not_unsound",
+                 "fp_error_not_unsound_backward", "fp_ordering_origin", "fp_monotone_no_error", "fp_complete", "fp_complete_backward",
+                 "fp_good", "fp_least_rel", "fp_monotone_no_error_rel", "fp_complete_rel",
+                 "fp_forward_solution", "fp_backward_solution", "il_location_hyps_forward", "il_location_hyps_backward", "fp_forward_budget"],
+    "rule": "one xoshiro256** stream per (seed,index): a random IL function from ilgen::gen_function (30% 'tiny' stream of 1-2 blocks for the "
+            "leastness enumeration, else 2-6 blocks; loops, self-loops, empty blocks, unreachable blocks; entry and exit moved to a random block "
+            "with probability 1/3 each; 1/60 functions without entry or exit), an analysis from 8 families written against the public trait "
+            "(gen/kill bit sets with union; bit sets with intersection; flat constant lattice; bounded counter min(k,x+1); unbounded counter; "
+            "non-monotone xor / k-x transfer; join that fails or returns its first argument; transfer function that fails or panics at a location), "
+            "direction (60% forward), force (30%), max_analysis_steps (35% 0..12, 25% within 3 of the exact number of pops needed, else 400; backward: "
+            "watchdog of 300 transfer calls); non-trivial = error outcome, or a result with >= 2 locations on a function with a loop; "
+            "distinct by direction + force + budget + analysis + function text",
+    "trusted_base": [KERNEL, HARNESS_TB,
+                     "the harness's Rust rendering of each analysis (trans/join/partial_cmp) agrees with its Gallina rendering in Flow/C09Check.v "
+                     "(both are ten-line integer functions; a disagreement shows as a tie failure)"],
+    "assumptions": ["location hypotheses of the abstract theorems are discharged for IL functions from cfg_inv (C15) via C18's lemmas in IL/LocProofs.v",
+                    "HashMap with keys ProgramLocation / RefProgramLocation behaves as a finite map (model: association list)"],
     "partial": [],
-    "level_text": "",
-    "level_note": "",
+    "level_text": "Unbounded Coq theorems about a line-by-line Gallina transcription of both work-list engines, abstract in the analysis and the location graph: "
+                  "whatever is returned satisfies the data-flow equations on exactly the reachable locations (no monotonicity assumed), is below every "
+                  "post-fixpoint under lattice hypotheses, the loop stops within 1+d*n*(h+1) pops, the step budget is characterised exactly (off-by-one "
+                  "included), a non-ascending step yields the ordering error and never a result, and monotone analyses over finite height complete with "
+                  "a result; instantiated for IL functions with C18's location lemmas.  The transcription is tied to the Rust engines in the kernel on "
+                  "generated (function, analysis) pairs (model result = observed result), and the observed result is checked against the specification "
+                  "(reachable set, equations re-evaluated, leastness by enumeration of all solutions on small instances, termination / error class).",
+    "level_note": "Trusted: Coq kernel + vm_compute; the harness and its two renderings of the analyses; the model is hand-written and tied differentially. "
+                  "force = true is outside the property text: only the post-fixpoint inequality is proved, and termination needs an extra hypothesis.",
 }
